@@ -26,6 +26,11 @@ import (
 
 const knownKeyTrunc = "C05/v-truncated-to-byte"
 
+// the EIP-155 form of V pushed through the 65-byte compact form keeps only byte(V); when that byte is 0 or 1
+// (chain id = 110 mod 128 with odd parity, = 111 mod 128 with even parity) the decoded signature is read as the
+// yParity form of the OPPOSITE parity and recovers another address (theorem C05_compact_eip155_wrong_parity_refuted)
+const knownKeyCompact = "C05/compact-eip155-byte-0-1"
+
 var (
 	curveN, _ = new(big.Int).SetString("FFFFFFFFFFFFFFFFFFFFFFFFFFFFFFFEBAAEDCE6AF48A03BBFD25E8CD0364141", 16)
 	two256    = new(big.Int).Lsh(big.NewInt(1), 256)
@@ -303,7 +308,12 @@ func (g *gen) addRecover(hashing bool, s sig, msg []byte, chain int64, expect in
 	if expect == 2 && isSigner && explainedByTruncation(s.V, chain) {
 		d.Key = knownKeyTrunc
 	}
-	_ = knownKey
+	if expect == 1 && !isSigner && knownKey == knownKeyCompact {
+		// only where the theorem says so: the V byte that survived the compact form is 0 or 1
+		if s.V.Sign() >= 0 && s.V.Cmp(bi(1)) <= 0 {
+			d.Key = knownKeyCompact
+		}
+	}
 	g.w.Add(fmt.Sprintf("CRecover %s %s %s %s %s %s %d%%nat %s %d%%N %s", boolc(hashing), zl(s.V), zl(s.R), zl(s.S), cv.Compress(msg).Coq(), zl(bi(chain)), cls, cv.CoqBytes(addr), expect, cv.CoqBytes(signer)), d)
 	g.st.Hit("recover/" + what + "/" + clsName(cls))
 	g.st.Evaluations++
@@ -725,6 +735,38 @@ func main() {
 		if cls, outb := doCompact(sig{V, R, S}); cls == 0 && (i%3 == 2 || thorough) {
 			if c, s2 := doDecode(outb); c == 0 {
 				g.addRecover(h, s2, sg.msg, c1, 1, signer, "via-compact-roundtrip", "")
+			}
+		}
+		// the EIP-155 form through the compact codec (referee issue I6): V >= 256 from chain id 111 on and
+		// CompactRSV keeps byte(V).  The codec cases are correspondence cases (model: V mod 256 survives);
+		// recovery of the decoded signature: a true round trip (V < 256) must return the signer; a truncated
+		// V carries no expectation (it recovers the signer only through known finding C05/v-truncated-to-byte)
+		// except the witness chains 110 / 111 whose byte is 0 / 1: there the property's "compact form
+		// round-trips" fails visibly (another address) -- known finding C05/compact-eip155-byte-0-1.
+		if i%4 == 1 || i < 2 || thorough {
+			wit := int64(111) - p // p = 1 -> chain 110 -> V = 256 -> byte 0; p = 0 -> chain 111 -> V = 257 -> byte 1
+			for k, cc := range []int64{wit, wit + 128*(1+int64(i%5)), 109, 1001, c1, rc} {
+				sd := sig{V, R, S}.data()
+				sd.UpdateEIP155(cc)
+				s155 := sig{sd.V, sd.R, sd.S}
+				g.addCompact(s155, "eip155-V-any-chain")
+				cls, outb := doCompact(s155)
+				if cls != 0 {
+					continue
+				}
+				if k < 3 {
+					g.addDecode(outb, "eip155-compact")
+				}
+				if c, s2 := doDecode(outb); c == 0 {
+					switch {
+					case s155.V.Cmp(bi(256)) < 0:
+						g.addRecover(h, s2, sg.msg, cc, 1, signer, "via-compact-eip155/V<256", "")
+					case s2.V.Cmp(bi(1)) <= 0:
+						g.addRecover(h, s2, sg.msg, cc, 1, signer, "via-compact-eip155/byte-0-1", knownKeyCompact)
+					default:
+						g.addRecover(h, s2, sg.msg, cc, 0, signer, "via-compact-eip155/truncated", "")
+					}
+				}
 			}
 		}
 		// opposite parity in each convention
